@@ -78,7 +78,17 @@ func (e *histEngine) step1(r *rng, k int, prev, prevAny func() MalType, tainted 
 		}
 	}
 	lit := func() MalType { return 10 + r.intn(80) }
-	switch r.intn(25) {
+	switch r.intn(27) {
+	case 25, 26:
+		// closures created in successive iterations of a tail-recursive loop each keep the parameters of THEIR iteration
+		// (the loop's frames are values captured by closures: a frame reused for the next iteration would change them)
+		v := prev()
+		loop := ls(sy("fn"), vc(sy("n"), sy("x"), sy("acc")),
+			ls(sy("if"), call1("<", sy("n"), 1), sy("acc"),
+				ls(sy("tl!"), call1("-", sy("n"), 1), call1("conj", sy("x"), sy("n")),
+					call1("cons", ls(sy("fn"), vc(), call1("list", sy("n"), sy("x"))), sy("acc")))))
+		return ls(sy("do"), ls(sy("def"), sy("tl!"), loop),
+			call1("map", ls(sy("fn"), vc(sy("g")), ls(sy("g"))), ls(sy("tl!"), 2+r.intn(2), v, call1("list"))))
 	case 0, 1, 2:
 		return call1("conj", prev(), lit())
 	case 3:
